@@ -772,6 +772,132 @@ static void do_oinj(char **w) {
   endpoint_down(0); endpoint_down(1);
 }
 
+/* ---- OSCORE option of 256+ bytes (olen) and dispatch of plain requests on an OSCORE session (odisp) ------------ */
+
+/* the datagram dg with `extra` bytes `fill` appended to the VALUE of its (first) OSCORE option; NULL if there is none */
+static uint8_t *extend_oscore_opt(const uint8_t *dg, size_t len, size_t extra, uint8_t fill, size_t *outlen) {
+  size_t p, q, vs = 0, vl = 0, hs = 0, rest;
+  unsigned num = 0, prevnum = 0, dn, ln;
+  int found = 0;
+  uint8_t *out;
+  if (len < 4 || (dg[0] & 15) > 8 || 4 + (size_t)(dg[0] & 15) > len) return NULL;
+  p = 4 + (dg[0] & 15);
+  while (p < len && dg[p] != 0xFF) {
+    size_t h0 = p;
+    unsigned d = dg[p] >> 4, l = dg[p] & 15;
+    p++;
+    if (d == 15 || l == 15) return NULL;
+    if (d == 13) { if (p >= len) return NULL; d = dg[p] + 13; p += 1; }
+    else if (d == 14) { if (p + 1 >= len) return NULL; d = dg[p] * 256 + dg[p + 1] + 269; p += 2; }
+    if (l == 13) { if (p >= len) return NULL; l = dg[p] + 13; p += 1; }
+    else if (l == 14) { if (p + 1 >= len) return NULL; l = dg[p] * 256 + dg[p + 1] + 269; p += 2; }
+    if (p + l > len) return NULL;
+    if (num + d == COAP_OPTION_OSCORE) { found = 1; hs = h0; vs = p; vl = l; prevnum = num; break; }
+    num += d;
+    p += l;
+  }
+  if (!found) return NULL;
+  out = (uint8_t *)malloc(len + extra + 16);
+  memcpy(out, dg, hs);
+  q = hs;
+  {
+    uint8_t *h = out + q++;
+    q += put_ext(out + q, COAP_OPTION_OSCORE - prevnum, &dn);
+    q += put_ext(out + q, (unsigned)(vl + extra), &ln);
+    *h = (uint8_t)(dn << 4 | ln);
+  }
+  memcpy(out + q, dg + vs, vl); q += vl;
+  memset(out + q, fill, extra); q += extra;
+  rest = len - (vs + vl);
+  memcpy(out + q, dg + vs + vl, rest);
+  *outlen = q + rest;
+  return out;
+}
+
+/* olen <C: 5> <S: 5> <cseq> <sseq> <newmid|-1> <req> <resp|-> <piv 0|1> <q|r> <extra> <fill> */
+static void do_olen(char **w) {
+  size_t dglen, inlen; int target, v;
+  coap_pdu_t *res;
+  uint8_t *dg = tamper_setup(w, &dglen, &target), *in;
+  if (!dg) { printf("setup-fail"); endpoint_down(0); endpoint_down(1); return; }
+  in = extend_oscore_opt(dg, dglen, strtoul(w[18], NULL, 10), (uint8_t)strtoul(w[19], NULL, 16), &inlen);
+  free(dg);
+  if (!in) { printf("bad-input"); endpoint_down(0); endpoint_down(1); return; }
+  printf("dg="); h_puthex(stdout, in, inlen);
+  v = deliver(target, in, inlen, &res);
+  free(in);
+  printf(" u="); print_delivery(v, res);
+  endpoint_down(0); endpoint_down(1);
+}
+
+static int g_handler_runs;
+static uint8_t g_wire[2048]; static size_t g_wire_len; static int g_wire_n;
+static ssize_t cap_write(coap_session_t *s, const uint8_t *data, size_t len) {
+  (void)s;
+  if (g_wire_n++ == 0) { g_wire_len = len < sizeof(g_wire) ? len : sizeof(g_wire); memcpy(g_wire, data, g_wire_len); }
+  return (ssize_t)len;
+}
+static void hnd_count(coap_resource_t *r, coap_session_t *s, const coap_pdu_t *req, const coap_string_t *q, coap_pdu_t *rsp) {
+  (void)r; (void)s; (void)req; (void)q;
+  g_handler_runs++;
+  coap_pdu_set_code(rsp, COAP_RESPONSE_CODE_CHANGED);
+}
+
+/* odisp <C: 5> <S: 5> <cseq> <sseq> { o <req> | p <req> }*
+ * The SERVER session starts as libcoap creates it (oscore_encryption = 0).  Resource "o" is COAP_RESOURCE_FLAGS_OSCORE_ONLY,
+ * resource "p" is not; one handler for every method counts its runs and answers 2.04.  o = the client protects <req>, the
+ * datagram goes through coap_dispatch() on the server session; p = <req> itself (unprotected) goes through coap_dispatch() on the
+ * SAME session.  The real coap_send_internal() runs (a call inside coap_net.c is not wrapped); what it writes is captured at the
+ * session layer (lfunc[COAP_LAYER_SESSION].l_write).  Output per step: ` <o|p>:h<handler runs>,<response>` with <response> =
+ * `-` (nothing written) or `<code of the datagram><E|C>` (E: it carries an OSCORE option, C: in clear). */
+static void do_odisp(char **w, int n) {
+  static int have_res;
+  if (!have_res) {
+    static const char *names[2] = { "o", "p" };
+    for (int k = 0; k < 2; k++) {
+      coap_resource_t *r = coap_resource_init(coap_make_str_const(names[k]), k == 0 ? COAP_RESOURCE_FLAGS_OSCORE_ONLY : 0);
+      for (int mth = COAP_REQUEST_GET; mth <= COAP_REQUEST_IPATCH; mth++) coap_register_request_handler(r, (coap_request_t)mth, hnd_count);
+      coap_add_resource(g_ctx[1], r);
+    }
+    have_res = 1;
+  }
+  if (!endpoint_up(0, w + 1, strtoull(w[11], NULL, 10))) { printf("bad-context"); endpoint_down(0); return; }
+  if (!endpoint_up(1, w + 6, strtoull(w[12], NULL, 10))) { printf("bad-context"); endpoint_down(0); endpoint_down(1); return; }
+  g_sess[1]->oscore_encryption = 0;
+  g_sess[1]->mtu = 1152;
+  g_sess[1]->ref = 1;
+  g_sess[1]->state = COAP_SESSION_STATE_ESTABLISHED;
+  g_sess[1]->sock.lfunc[COAP_LAYER_SESSION].l_write = cap_write;
+  printf("disp");
+  for (int k = 13; k + 1 < n; k += 2) {
+    coap_pdu_t *req = parse_hex(w[k + 1]), *pdu;
+    uint8_t *dg = NULL; size_t dglen = 0;
+    if (!req) { printf(" bad-input"); break; }
+    if (w[k][0] == 'o') {
+      dg = protect(0, req, 0, -1, &dglen);
+      coap_delete_pdu(req);
+      if (!dg) { printf(" o:fail"); continue; }
+      pdu = parse_bytes(dg, dglen);
+      free(dg);
+      if (!pdu) { printf(" o:unparsable"); continue; }
+    } else pdu = req;
+    g_handler_runs = 0; g_wire_n = 0; g_wire_len = 0;
+    coap_lock_lock(g_ctx[1], coap_delete_pdu(pdu); break);
+    coap_dispatch(g_ctx[1], g_sess[1], pdu);
+    coap_lock_unlock(g_ctx[1]);
+    coap_delete_pdu(pdu);
+    printf(" %c:h%d,", w[k][0], g_handler_runs);
+    if (!g_wire_n) printf("-");
+    else {
+      coap_opt_iterator_t oi;
+      coap_pdu_t *rp = parse_bytes(g_wire, g_wire_len);
+      if (!rp) printf("unparsable");
+      else { printf("%d%c", (int)rp->code, coap_check_option(rp, COAP_OPTION_OSCORE, &oi) ? 'E' : 'C'); coap_delete_pdu(rp); }
+    }
+  }
+  endpoint_down(0); endpoint_down(1);
+}
+
 /* ---- several clients (contexts) behind one server session (oscx) ----------------------------- */
 
 #define MAX_XC 4
@@ -1009,6 +1135,8 @@ static void step(char *line) {
   if (!strcmp(w[0], "oscm") && n >= 16) { do_oscm(w, n); return; }
   if (!strcmp(w[0], "findctx")) { do_findctx(w, n); return; }
   if (!strcmp(w[0], "oinj") && n == 19) { do_oinj(w); return; }
+  if (!strcmp(w[0], "olen") && n == 20) { do_olen(w); return; }
+  if (!strcmp(w[0], "odisp") && n >= 13 && (n - 13) % 2 == 0) { do_odisp(w, n); return; }
   if (!strcmp(w[0], "oscx") && n >= 8) { do_oscx(w, n); return; }
   if (!strcmp(w[0], "oend") && n >= 14) { do_oend(w, n); return; }
   if (!strcmp(w[0], "optenc") && n == 5) { do_optenc(w); return; }
